@@ -16,17 +16,19 @@ import numpy as np
 from pmc.refs import vti as rv
 
 PROPERTY = 'C20'
-RULE = ("lattice x histories: VTI = grids (all (nx,ny[,nz]) up to the bound; grids where nel divides nnodes are skipped "
-        "and counted) x element sizes x vector shape {cell 1/3/4 components, point 1/2/3 components, each also as "
-        "block (N,k) and (k,N) with k in 1,3,11, and two multi-signal sets} (shapes whose element-/node-sized reading "
-        "is not unique per axis are skipped and counted; one-column blocks are observed only) x value kind {generic "
-        "non-float32-representable, float32 edge values, int64, float32, strided view} x scale {1,2.5} x overwrite "
-        "{T,F} x file name {with extension, without extension in a not yet existing sub-directory} x every history of "
-        "<=3 response() calls over {new state object, in-place mutation, unchanged}; LOG = signal sets (python/numpy "
-        "scalars, 0-d, vectors, 2-D arrays, size-1 arrays, mixtures) x fmt {.10e,.3f,.5g,e} x {tab,';' on .txt, "
-        "tab,';' on .csv} x {fresh, stale file present} x the same histories.  The oracle runs after every call. A "
-        "history is non-trivial if at least one array with >=2 distinct float32 values was decoded and compared (VTI) "
-        "or at least one data row with a value column was parsed (log); distinct by (case, config, history)")
+RULE = ("lattice x histories, every level a complete product.  VTI = grids (all (nx,ny[,nz]) up to the level's bound; "
+        "grids where nel divides nnodes are skipped and counted) x element sizes x vector shape {cell 1/3/4 components, "
+        "point 1/2/3 components, each also as block (N,k) and (k,N) with k in 3,11,1, and two multi-signal sets} "
+        "(shapes whose element-/node-sized reading is not unique PER AXIS are skipped and counted; one-column blocks "
+        "are observed only) x value kind {generic non-float32-representable, float32 edge values, int64, float32, "
+        "strided view} x scale {1,2.5} x overwrite {F,T} x file name {with extension, without extension in a not yet "
+        "existing sub-directory} x every history of response() calls of the level's depth (<=3) over {new state "
+        "object, in-place mutation, unchanged}.  LOG = signal sets (python/numpy scalars, 0-d, vectors, 2-D arrays, "
+        "size-1 arrays, mixtures) x fmt {.10e,.3f,.5g,e} x {tab,';' on .txt, tab,';' on .csv} x {fresh, stale file "
+        "present} x all 27 histories of depth 3.  The oracle runs after EVERY call (so every prefix of a history is "
+        "judged).  A history is non-trivial if at least one array with >=2 distinct float32 values was decoded and "
+        "compared (VTI) or at least one data row with a value column was parsed (log); distinct by (case, "
+        "configuration, history)")
 ASSUMPTIONS = ["pymoto.core_objects.get_init_str (diagnostic source-location string, ~1 ms per Signal/Module via "
                "inspect.stack) is replaced from outside by a constant during this check; it takes no part in the "
                "semantics under test",
